@@ -114,6 +114,19 @@ class C08(DevProp):
                         ev.append(a(agen.ABS_Y, rng.choice([-128, 0, 127, 60, -60])))
             ev += [a(code, zr["Mid"][0]), a(agen.ABS_Y, 0)]
             cases.append({"cfg": cfg, "abs": absl, "events": ev, "tag": kind + ("-flip" if flip else "") + ("" if with_neg else "-noneg")})
+        # level-triggered, not edge-triggered: a direction entered while its note is out of range (silent), the transposition brought back in
+        # range with the stick still deflected, then ANOTHER report beyond half travel in the same direction: the note must come on now
+        for cmode in devgen.CMODES[:2]:
+            for kind, (mn, mx) in (("s16", (-32768, 32767)), ("u8", (0, 255)), ("s8", (-128, 127))):
+                for neg in (False, True):
+                    an = agen.analog(agen.ABS_X, "key", note=120, noteneg=5, off=0, offneg=2, bidi=True)
+                    cfg = agen.base_cfg([an], actions=[{"code": c, "action": n_} for n_, c in ACT.items()], cmode=cmode, channel=2)
+                    zr = zone_raws(mn, mx)
+                    z = zr["Neg" if neg else "Pos"]
+                    away, back = (ACT["octave_down"], ACT["octave_up"]) if neg else (ACT["octave_up"], ACT["octave_down"])
+                    ev = [k(away, 1), k(away, 0), a(agen.ABS_X, z[0]), k(back, 1), k(back, 0), a(agen.ABS_X, z[1]), a(agen.ABS_X, z[0]),
+                          a(agen.ABS_X, zr["Mid"][0]), a(agen.ABS_X, z[1]), a(agen.ABS_X, zr["Mid"][0])]
+                    cases.append({"cfg": cfg, "abs": [{"code": agen.ABS_X, "min": mn, "max": mx}], "events": ev, "tag": "out-of-range-at-entry"})
         # two sources on one pitch: two emulating axes whose notes coincide only after a transposition between the deflections, and an
         # emulating axis against an ordinary key on the same (channel, pitch) - in every collision mode (the lifecycle of an emulated key is
         # its own: on at half travel, off on the way back, Note Off = the pair that was sent), every release order
